@@ -98,6 +98,33 @@ func (env *Env) lookupLocal(name string) (Val, bool) {
 			}
 		}
 	}
+	// the key variable of a range loop, named at the loop head (a contract written for
+	// the counted form "for i := 0; i < n; i++"): there it is rangeindex + 1
+	for li := fr.inLoop[env.blk]; li != nil; li = li.parent {
+		for _, cb := range cands {
+			bo, ok := cb.val.(*ssa.BinOp)
+			if !ok || bo.Op != token.ADD || !li.blocks[cb.blk] {
+				continue
+			}
+			phi, ok := bo.X.(*ssa.Phi)
+			k, isC := bo.Y.(*ssa.Const)
+			if !ok || !isC || phi.Block() != li.header || phi.Comment != "rangeindex" || k.Value == nil || k.Value.ExactString() != "1" {
+				continue
+			}
+			if env.blk != li.header && !env.atLatch {
+				continue // inside the body the ordinary binding applies
+			}
+			var pv Val
+			if v, ok := env.phis[phi]; ok {
+				pv = v
+			} else if v, ok := fr.vals[phi]; ok {
+				pv = v
+			}
+			if t, ok := pv.(T); ok {
+				return app(SInt, "+", t, intLit(1)), true
+			}
+		}
+	}
 	// otherwise the deepest dominating binding
 	var best *nameBinding
 	for k := range cands {
